@@ -146,6 +146,26 @@ def crops(draw, P):
             ov["Aer"] = float(draw(st.integers(0, 15)))
         if "SxTopQ" in which:
             ov["SxTopQ"] = draw(st.sampled_from([0.02, 0.048, 0.06]))
+    if flag(draw, P.get("p_misc", 0.3)):
+        # one or two of the less frequently changed documented crop parameters, moved by up to +-25 % (or inside their
+        # documented range), so that code reading them is exercised with other than the catalogue values
+        MISC = {"fshape_b": ("mul",), "PctZmin": ("rng", 50.0, 100.0), "GermThr": ("rng", 0.05, 0.5), "CCmin": ("rng", 0.02, 0.1),
+                "HIini": ("rng", 0.005, 0.03), "fsink": ("rng", 0.0, 1.0), "SeedSize": ("mul",), "PlantPop": ("mulint",), "Kcb": ("mul",),
+                "fage": ("mul",), "WP": ("mul",), "a_HI": ("mul",), "b_HI": ("mul",), "dHI_pre": ("rng", 0.0, 10.0), "exc": ("mul",),
+                "GDD_up": ("mul",), "SxBotQ": ("mul",), "LagAer": ("int", 1, 6), "beta": ("rng", 5.0, 20.0), "a_Tr": ("rng", 0.5, 2.0),
+                "MaxFlowPct": ("rng", 20.0, 50.0)}
+        for k in draw(st.lists(st.sampled_from(sorted(MISC)), min_size=1, max_size=2, unique=True)):
+            spec = MISC[k]
+            base = cp.get(k, None)
+            if spec[0] in ("mul", "mulint"):
+                if base is None or not isinstance(base, (int, float)) or base <= 0 or base > 1e6:
+                    continue
+                v = float(base) * draw(st.sampled_from([0.75, 0.9, 1.1, 1.25]))
+                ov[k] = int(round(v)) if spec[0] == "mulint" else round(v, 6)
+            elif spec[0] == "int":
+                ov[k] = draw(st.integers(spec[1], spec[2]))
+            else:
+                ov[k] = draw(f2(spec[1], spec[2])) if spec[2] <= 1.5 else float(draw(st.integers(int(spec[1]), int(spec[2]))))
     if P["switches"]:
         sw = draw(st.lists(st.sampled_from(
             ["ETadj", "PlantMethod", "GDDmethod", "Determinant", "PolHeatStress", "PolColdStress", "TrColdStress"]
@@ -244,6 +264,12 @@ def soils(draw, P, zmax):
             args["evap_z_max"] = draw(f2(0.25, 0.4))
         if "fshape_cr" in which:
             args["fshape_cr"] = draw(st.sampled_from([8, 16, 24]))
+        if flag(draw, 0.3):
+            # expert parameters of the evaporation module, inside plausible ranges
+            args["kex"] = draw(f2(0.9, 1.2))
+            args["fwcc"] = float(draw(st.integers(30, 70)))
+            args["f_evap"] = draw(st.integers(2, 6))
+            args["f_wrel_exp"] = draw(f2(0.2, 0.6))
         if "z_res" in which:
             args["z_res"] = draw(f2(0.2, 2.5))   # documented constructor argument (depth of a restrictive layer)
     if flag(draw, P["p_custom_soil"]):
